@@ -24,6 +24,16 @@ def target_dir():
     return os.path.join(WORK, "target-prog")
 
 
+# A user trait that offers slice-like methods on arrays with wrong answers.  Method syntax on an array (`arr.len()`)
+# finds such a trait method before it reaches the slice method, so a macro expansion that uses method syntax on a
+# caller-provided array is hijacked by it (finding F13).  Added to the prelude of the macro program sets.
+HOSTILE_PRELUDE = (
+    "pub trait HostileArrayMethods { fn len(&self) -> usize { 0 } fn is_empty(&self) -> bool { true } "
+    "fn first(&self) -> Option<&u8> { None } fn last(&self) -> Option<&u8> { None } } "
+    "impl<T, const N: usize> HostileArrayMethods for [T; N] {} "
+)
+
+
 def rust_str(b):
     """Rust string literal for the UTF-8 bytes b (escapes everything non-alphanumeric)."""
     s = bytes(b).decode("utf-8")
